@@ -491,3 +491,31 @@ def dtype_of(name):
 
 def eps_of(name):
     return float(np.finfo(dtype_of(name)).eps)
+
+
+
+class TimeScaled:
+    """y(t) = base.y(t / tau): the same trajectory on a time axis compressed (tau << 1) or stretched (tau >> 1) by tau."""
+
+    def __init__(self, base, tau):
+        self.base, self.tau = base, float(tau)
+        self.dim, self.shape = base.dim, base.shape
+        self.a = base.a
+        self.w = base.w / self.tau
+        self.v = base.v / self.tau
+
+    def rhs(self, t, y, **kw):
+        y = np.asarray(y)
+        return self.base.rhs(np.asarray(t, dtype=y.dtype) / y.dtype.type(self.tau), y) / y.dtype.type(self.tau)
+
+    def ystar(self, t, dtype=np.longdouble):
+        return self.base.ystar(np.asarray(t, dtype=dtype) / np.dtype(dtype).type(self.tau), dtype=dtype)
+
+    def dystar(self, t, dtype=np.longdouble):
+        return self.base.dystar(np.asarray(t, dtype=dtype) / np.dtype(dtype).type(self.tau), dtype=dtype) / np.dtype(dtype).type(self.tau)
+
+    def d4ystar_max(self):
+        return self.base.d4ystar_max() / self.tau ** 4
+
+    def lipschitz(self):
+        return self.base.lipschitz() / self.tau
